@@ -1,3 +1,52 @@
-(* Regression_ebppscodec.v — being filled in *)
-From Coq Require Import NArith List.
-From DS Require Import EbppsCodecDefs.
+(* Regression_ebppscodec.v — the EBPPS readers BEFORE fixes/11_ebpps_c_range.patch + 11_ebpps_stream_state.patch + 11_ebpps_zero_c_image.patch, kept as theorems.
+   1. deserialize(istream) used the fields of the first preamble long without testing the stream state: on a stream that
+      ends inside them read<T>() returns an object whose missing bytes were never written (whatever the stack held), and
+      for an image with the EMPTY flag the reader returned ebpps_sketch(k) without ever testing the stream.  Modelled with
+      an explicit value [g] for what the unwritten bytes hold: there are values for which a 4-byte prefix of an empty
+      image is ACCEPTED, which the repaired reader (EbppsCodecDefs.dec_stream) rejects whatever follows.
+   2. both sample readers converted C to a 32-bit count after checking only C < 0.0: NaN and values of 2^32 and above
+      passed (the conversion is undefined behaviour for them). *)
+From Coq Require Import NArith List Bool Lia Arith.
+From DS Require Import Word ThetaCodecDefs EbppsCodecDefs EbppsCodecProofs.
+Import ListNotations.
+Local Open Scope N_scope.
+
+(* read<T>(is) on a short stream: the bytes that are there, then the stale content [g] of the object *)
+Definition rd_stale (g : N) (n off : nat) (bytes : list N) : N :=
+  match rd n off bytes with Some v => v | None => g end.
+
+(* the first preamble long and the EMPTY path of the old stream reader *)
+Definition old_stream_head (g : N) (bytes : list N) : option esk :=
+  let pre := rd_stale g 1 0 bytes in let ver := rd_stale g 1 1 bytes in let fam := rd_stale g 1 2 bytes in
+  let fl := rd_stale g 1 3 bytes in let k := rd_stale g 4 4 bytes in
+  if negb (header_ok pre ver fam fl k) then None else
+  if N.testbit fl 2 then Some (empty_sk k) else None.
+
+Theorem old_stream_reader_accepts_prefix_refuted :
+  exists g k, (4 < length (enc (empty_sk k)))%nat /\
+    old_stream_head g (firstn 4 (enc (empty_sk k))) = Some (empty_sk g) /\
+    dec_stream (firstn 4 (enc (empty_sk k))) = None.
+Proof. exists 7, 9. vm_compute. repeat split. lia. Qed.
+
+(* the old test on C *)
+Definition old_c_accepted (c : N) : bool := negb (c_negative c).
+
+Theorem old_c_check_refuted :
+  exists c_nan c_big, old_c_accepted c_nan = true /\ c_below_2_32 c_nan = false /\
+                      old_c_accepted c_big = true /\ c_below_2_32 c_big = false.
+Proof. exists 9221120237041090560, 4751297606875873280. vm_compute. repeat split. Qed.
+
+(* 3. before fixes/11_ebpps_zero_c_image.patch a non-empty image whose C is 0.0 passed every check (C is not negative, is
+      below 2^32, announces no item and no partial item) and gave a sketch with n > 0 and C = 0 that cannot be serialized
+      again; the repaired readers reject it.  The image: k = 5, two items of weight 2.0, byte 47 (top byte of C = 2.0) := 0. *)
+Definition zero_c_image : list N :=
+  set_nth 47 0 (enc {| e_k := 5; e_n := 2; e_cw := 4616189618054758400; e_wmax := 4611686018427387904;
+                        e_rho := 4602678819172646912; e_c := 4611686018427387904; e_data := [1; 2]; e_part := None |}).
+Theorem zero_c_image_accepted_refuted :
+  rd 8 40 zero_c_image = Some 0 /\ c_negative 0 = false /\ c_below_2_32 0 = true /\ c_has_frac 0 = false /\ c_floor 0 = 0 /\
+  c_is_zero 0 = true /\ dec_bytes zero_c_image = None /\ dec_stream zero_c_image = None.
+Proof. vm_compute. repeat split. Qed.
+
+Print Assumptions zero_c_image_accepted_refuted.
+Print Assumptions old_stream_reader_accepts_prefix_refuted.
+Print Assumptions old_c_check_refuted.
